@@ -958,7 +958,8 @@ class InlineCall(StrCompareMixin, pmbl.CallWithKwargs):
     def __hash__(self):
         # A custom `__hash__` function to protect us from unhashasble
         # dicts that `pmbl.CallWithKwargs` uses internally
-        return hash(self.__getinitargs__())
+        # Note that keyword names are case-insensitive (as in `__eq__`)
+        return hash((self.function, self.parameters, tuple(self._canonical(kw) for kw in self.kw_parameters)))
 
     @property
     def name(self):
